@@ -119,13 +119,16 @@ PROPS['C25'] = {
     'level': 'proof',
     'level_text': 'Deductive proof (Verus/Z3), partial: the atomic-failure clause only. On the real bodies of update_from_str, set_value, with_string, with_value, '
                   'from_string and set_thread_local_value: a failing update leaves *self unchanged; a successful one yields settings that passed validate(); the '
-                  'thread-local cell is written only (effect-guard precondition) with a value that decoded and validated. Merge/path/JSON-TOML clauses are not claimed.',
+                  'thread-local cell is written only (effect-guard precondition) with a value that decoded and validated. The merge / path / JSON-TOML clauses are covered by a bounded native stand-in only (not counted as proved).',
     'level_note': 'parse_to_value, merge_json, set_at_path, serde_json::{to_value,from_value}, validate opaque; map_err closures replaced by opaque mappers (declared subst rules); thread-local SETTINGS modelled as a cell with get_clone/set.',
     'technique': TECH_V + '; effect-guard precondition on the thread-local write',
-    'parts': [V('verus:settings', 'settings')],
+    'parts': [V('verus:settings', 'settings'),
+              B('native:merge_and_path_laws', 'sdk', [{'name': 'c25_merge_and_path_laws_small_json_trees', 'tier': 'quick'}, {'name': 'c25_settings_path_updates_do_not_depend_on_history', 'tier': 'quick'}],
+                functions=[('sdk/src/settings/mod.rs', 'merge_json_depth'), ('sdk/src/settings/mod.rs', 'set_at_path'), ('sdk/src/settings/mod.rs', 'get_at_path'), ('sdk/src/settings/mod.rs', 'parse_to_value')],
+                bounds='JSON trees of depth <= 2 over keys {a,b} and 6 leaves (3191 trees); 8 paths; 7 real settings paths with 2..4 values each')],
     'trusted_base': TB_VERUS + ['with_string/with_value take &self (rustc-enforced immutability)', 'Value::clone preserves decodability'],
     'rule': 'obligation = one Verus function-level query over real text extracted from /repo on this run',
-    'not_covered': ['JSON-merge semantics (merge_json), dotted-path get/set (set_at_path), JSON == TOML equivalence: serde_json::Value / IndexMap recursion is outside Verus and intractable in CBMC'],
+    'not_covered': ['merge / path / JSON == TOML clauses beyond the bounded native part (serde_json::Value recursion is outside Verus and intractable in CBMC)', 'the full settings schema with invalid types and unknown keys'],
 }
 
 PROPS['C19'] = {
@@ -135,10 +138,13 @@ PROPS['C19'] = {
                   'The other two traversals of the statement are not covered.',
     'level_note': 'std HashSet<String> assumed to obey vstd key model; Claim/Store opaque; get_claim returns a claim whose label is in the (finite) store.',
     'technique': TECH_V + '; termination by a set-cardinality measure',
-    'parts': [V('verus:binding_search', 'binding_search')],
+    'parts': [V('verus:binding_search', 'binding_search'),
+              B('native:ingredient_graphs', 'sdk', [{'name': 'c19_referenced_manifest_walk_all_small_graphs', 'tier': 'quick'}],
+                functions=[('sdk/src/store.rs', 'get_claim_referenced_manifests_impl')],
+                bounds='every directed ingredient graph on 1..=3 manifests (+ dangling reference), every 7th (thorough: all) of the 65536 graphs on 4 manifests, one over-deep chain')],
     'trusted_base': TB_VERUS + ['vstd HashSet model for String keys', 'String determined by its characters', 'Store::get_claim(l) returns a claim stored in the store'],
     'rule': 'obligation = one Verus function-level query over real text extracted from /repo on this run',
-    'not_covered': ['get_claim_referenced_manifests_impl and ingredient_checks (entry API, log_item!, &mut iteration: outside Verus)',
+    'not_covered': ['ingredient_checks (entry API, log_item!, &mut iteration: outside Verus); get_claim_referenced_manifests_impl only by the bounded native part',
                     '"never reports a cyclic, dangling or over-deep graph as Valid"', 'polynomial running time'],
 }
 
